@@ -3,6 +3,7 @@ package hq
 import (
 	"context"
 
+	"github.com/internetarchive/Zeno/internal/pkg/verifhook"
 	"github.com/internetarchive/Zeno/pkg/models"
 	"github.com/internetarchive/gocrawlhq"
 )
@@ -56,7 +57,9 @@ func SeencheckItem(item *models.Item) error {
 
 	// Get seencheck URLs from CrawlHQ
 	// If an URL is not returned it means that it was seen before
+	verifhook.At("hq.seen.ask", item, URLsToSeencheck)
 	outputURLs, err := globalHQ.client.Seencheck(context.TODO(), URLsToSeencheck)
+	verifhook.At("hq.seen.answer", item, outputURLs, err)
 	if err != nil {
 		return err
 	}
@@ -81,6 +84,7 @@ func SeencheckItem(item *models.Item) error {
 
 		if !found {
 			items[i].SetStatus(models.ItemSeen)
+			verifhook.Obs("hq.seen.skip", items[i])
 		}
 	}
 
